@@ -155,6 +155,8 @@ void AbstractParameterAliasable::aliasParameters(map<string, string>& unparsedPa
       {
         if (!pl.hasParameter(it->second))
           throw ParameterNotFoundException("Unknown aliasing parameter", it->first + "->" + it->second);
+        // The source is itself a key of the map that is not resolved yet: look at this entry again in the next pass.
+        ++it;
         continue;
       }
       unique_ptr<Parameter> p2(pp->clone());
